@@ -61,11 +61,20 @@ pub fn next_solution_append<'a>(bip: BuiltInPredicate,
                     let mut list = t;
                     loop {
                         if let Unifiable::SLinkedList{term, next,
-                                          count: _, tail_var: _} = list {
+                                          count: _, tail_var} = list {
                             if *term == Unifiable::Nil { break; }
+                            if tail_var {
+                                // A tail variable which is bound to
+                                // a list continues the list.
+                                if let Some(rest) = get_list(&term, &ss) {
+                                    list = rest.clone();
+                                    continue;
+                                }
+                            }
                             out_terms.push(*term);
                             list = *next;
                         }
+                        else { break; }
                     }
                 },
                 // LogicVar was dealt with above.
@@ -74,7 +83,7 @@ pub fn next_solution_append<'a>(bip: BuiltInPredicate,
 
         } // for
 
-        let out = make_linked_list(false, out_terms);
+        let out = make_list_of_terms(out_terms);
         let last_term = terms[length - 1].clone();
 
         // Unify new list with last term.
